@@ -3,7 +3,7 @@
 From Coq Require Import ZArith List Bool.
 From AV Require Import Lib.Bytes Gen.Utils Gen.SctpConst Model.SctpRecv Model.SctpSend Model.SctpTx
   Proof.SctpRecvP Proof.SctpC01P Proof.SctpSendP Proof.SctpTxP Proof.SctpPrP Proof.SctpFwdFrameP.
-From AV Require Proof.SctpDupP Proof.SctpOrderP Proof.SctpOnceFwdP Proof.SctpStuckP.
+From AV Require Proof.SctpDupP Proof.SctpOrderP Proof.SctpOnceFwdP Proof.SctpRestartP.
 Import ListNotations.
 Local Open Scope Z_scope.
 
@@ -132,20 +132,19 @@ Print Assumptions C06_in_order_with_forward_tsn.
    bound, FORWARD-TSN retransmission, unsent sibling fragments, sequence number moved
    backwards, delivery blocked by pruned fragments, flight-size drift). *)
 
-(* REFUTED part of the property (recorded finding K11, not repaired - see DESIGN.md 11.4): `once the
-   network recovers, messages sent afterwards on the same channel are delivered again` does not hold
-   on an unordered partially reliable channel.  Witness on the model (and, replayed, on the code):
-   fragments 100, 101 of a message whose last fragment is lost, then the complete message 103, then
-   the FORWARD-TSN that abandons the first message.  Afterwards every TSN up to 103 counts as
-   received, nothing is missing, nothing was delivered, and message 103 sits in the reassembly
-   queue: pop_messages skipped it at the gap, and pruning does not look at the queue again. *)
-Theorem C06_unordered_message_stuck_refuted : exists es,
-  let s := fst (rrun (rinit 99) es) in
-  let os := snd (rrun (rinit 99) es) in
-  last_rx s = 103 /\ misordered s = [] /\ AV.Proof.SctpStuckP.delivered os = [] /\
-  map (fun kv => (fst kv, reasm (snd kv))) (streams s) = [(2, [AV.Proof.SctpStuckP.stuck_m])].
-Proof. exists AV.Proof.SctpStuckP.stuck_events. exact AV.Proof.SctpStuckP.unordered_message_stuck. Qed.
-Print Assumptions C06_unordered_message_stuck_refuted.
+(* 8. A gap does not hide the next message on an unordered channel.  When the reassembly scan
+   (pop_messages) meets a TSN gap inside a run of unordered fragments - fragments of a message the
+   sender has abandoned, say - it gives that run up and looks at the very chunk at which the gap
+   showed again: if that chunk is a complete unordered message it is delivered in the same pass,
+   whatever was collected before it, whatever follows.  (Before the repair in /repo the chunk was
+   skipped: such a message stayed in the queue, and after the FORWARD-TSN had pruned the fragments
+   nothing looked at the queue again - `messages sent afterwards are delivered again` failed.) *)
+Theorem C06_message_after_gap_delivered : forall kept r e c rest seq,
+  (tsn c =? e) = false -> unordered c = true -> first c = true -> last c = true ->
+  exists l s ms,
+    pop_loop kept (Some (r, e, false)) (c :: rest) seq = (l, s, (sid c, ppid c, join_data [c]) :: ms).
+Proof. exact AV.Proof.SctpRestartP.message_after_gap_delivered. Qed.
+Print Assumptions C06_message_after_gap_delivered.
 
 Example C06_example :
   let c t f l := mkSc t 1 0 false f l 1200 false false false 0 1 (Some 0) None in
